@@ -187,6 +187,10 @@ func checkC19(c *Ctx) {
 	c.Extra["registrations"] = len(regs)
 	c.Extra["non_var_registrations"] = others
 	c.Floor("FLAGDEF", 150)
+	c.Decides("BUILTIN-VALUES: every option of package cmd is registered through pflag's own typed registrars (no Var/VarP/VarPF with a hand-written Value, whose Set could refuse or alter the documented default when it is passed explicitly)")
+	if c.builtinValues("BUILTIN-VALUES", c.AllFuncs("cmd"), "passing the documented default explicitly behaves like omitting the option") < 150 {
+		c.Undecided("BUILTIN-VALUES", "coverage", token.NoPos, "fewer than 150 typed registrations seen in package cmd")
+	}
 
 	c.Decides("DEFVALUE-PATCH: nothing assigns the DefValue field of a flag after its registration: the default the help text shows is the one the registration call stored in the option")
 	if sites, _ := c.defValuePatch("DEFVALUE-PATCH", "the default value shown in its help text"); sites > 0 {
